@@ -546,7 +546,7 @@ func init() {
 		Assume: []string{"host initialised as the property requires", "a run that kills its worker process is confirmed by the driver from the worker's last announced seed"},
 		Real:   real, Stub: stub, Gen: genC03, Run: advRun("C03")})
 	register(&Check{ID: "C20", Level: "exploration",
-		Rule:   "same adversarial profiles, biased to long-string encodings and huge length words; invariant per executed instruction: StateDB reads <= 32 + cost/10 (enforced while the instruction runs) and bytes allocated <= 1 MiB + 64*cost + 2*memory size (journal, copy and call windows); distinct = hash of event-kind sequence",
+		Rule:   "same adversarial profiles, biased to long-string encodings and huge length words; invariant per executed instruction: StateDB reads <= 32 + cost/10 (enforced while the instruction runs) and bytes allocated <= 1 MiB + 64*cost + 2*memory size (journal, copy and call windows; journal windows may add twice what the journal instructions of the transaction allocated so far: a doubling map or slice); amortised per transaction for the flat-fee journal instructions 0xe0-0xe6: allocation beyond twice the memory size <= 1 MiB + 16 bytes per gas they paid; plus a loop profile of 2500-5500 journal instructions in one frame; distinct = hash of event-kind sequence",
 		Assume: []string{"work that crosses no seam (hashing inside a precompile, CPU time) is not measured"},
 		Real:   real, Stub: stub, Gen: func(seed uint64, tier string) *Scenario {
 			if seed%160 == 7 {
